@@ -100,7 +100,7 @@ def run(ctx):
         b = bins.get((name, "cmd"))
         if b is None:
             continue
-        unknown = ["nosuchtoken", "S", "", "INVALID2"]
+        unknown = ["nosuchtoken", "S", "", "INVALID2", "empty"]   # the keyword of an empty alternative is not a terminal (defect D18, repaired)
         out = subprocess.run([b, str(len(terms) + 2)] + unknown, capture_output=True, text=True).stdout.split("\n")
         if out[0] != "INVALID=0 EOF=1":
             why = "token constants: " + out[0]
